@@ -4,7 +4,7 @@ from ..qcheck import mk_case, run_cases
 from ..common import dec_val
 
 MODULE = "Genql.Properties.C04"
-LEAN_TARGETS = [MODULE, "Genql.Properties.C04Model", "Genql.Proofs.KeyText"]
+LEAN_TARGETS = [MODULE, "Genql.Properties.C04Model", "Genql.Proofs.KeyText", "Genql.Properties.C04On"]
 THEOREMS = ["Genql.C04." + t for t in [
     "catalogue_eq_groups", "catalog_flatten_perm", "catalog_member_key", "catalog_lookup_filter",
     "hash_inner_perm_textbook", "hash_left_perm_textbook", "flatMap_comm_perm", "nested_inner_perm_textbook",
@@ -13,7 +13,8 @@ THEOREMS = ["Genql.C04." + t for t in [
     "hashPure_left_eq", "nested_group_perm", "nested_left_perm_textbook", "catalog_group_nonempty", "catalog_cover",
     "nestedRun_pure", "nestedPure_inner_eq", "nestedPure_left_eq", "toCatalog_entries", "hash_join_model_textbook",
     "nested_join_model_textbook"]] + ["Genql.KeyText." + t for t in [
-        "tok_append_inj", "enc_injective", "encKey_injective", "rowKey_enc", "rowKey_eq_iff"]]
+        "tok_append_inj", "enc_injective", "encKey_injective", "rowKey_enc", "rowKey_eq_iff"]] + \
+    ["Genql.C04." + t for t in ["hard_eq_flat", "on_sound", "on_and_sound"]]
 TRUSTED = ["Go map iteration order is an arbitrary permutation (results compared as multisets)",
            "SHA-256 of the key text is collision free", "sqlparser JoinType predicates (table copied in pylib/sqlgen.py)",
            "goroutine scheduling of the PARALLEL variants only permutes chunk order (mutex-protected append)"]
@@ -138,7 +139,10 @@ LEVEL_TEXT = ("Lean theorems: catalogues (first-appearance key groups) flatten t
               "object rows with readable key columns, toCatalog + hashJoinRun / nestedRun succeed and return a permutation of the "
               "textbook INNER / LEFT OUTER join (hash_join_model_textbook, nested_join_model_textbook; RIGHT = LEFT with sides "
               "swapped by definition of execJoin). The length-prefixed key text is injective for every list of column texts "
-              "(enc_injective, rowKey_eq_iff): two rows share a catalogue group iff their key column texts are equal. "
+              "(enc_injective, rowKey_eq_iff): two rows share a catalogue group iff their key column texts are equal. ON is "
+              "evaluated with hard-coded reads on the merged key map: on the predicate fragment that is ordinary evaluation with "
+              "flattened column names, so ON has its SQL truth value there and AND/OR/NOT pass the reads on to every operand "
+              "(hard_eq_flat, on_sound). "
               "Tied to /repo by the correspondence over all 17 join spellings.")
 LEVEL_NOTE = ("Go map order / goroutine schedule enter only as a permutation of key groups (proved irrelevant). A data race inside "
               "the PARALLEL variants cannot be exhibited by the model: that is C13's obligation. STRAIGHT_JOIN on LEFT/RIGHT is an "
